@@ -40,11 +40,15 @@ def main() -> int:
                 continue
             path = os.path.join(WT, m["file"])
             src = open(path).read()
-            if src.count(m["old"]) != 1:
-                print(f"MUTANT {m['name']}: pattern occurs {src.count(m['old'])} times, skipped")
+            edits = m.get("edits") or [(m["old"], m["new"])]
+            bad_pat = [o for o, _ in edits if src.count(o) != 1]
+            if bad_pat:
+                print(f"MUTANT {m['name']}: pattern occurs {src.count(bad_pat[0])} times, skipped")
                 results.append((m["name"], "bad-pattern", 0))
                 continue
-            open(path, "w").write(src.replace(m["old"], m["new"]))
+            for o, n in edits:
+                src = src.replace(o, n)
+            open(path, "w").write(src)
             env = dict(os.environ)
             env["PYTHONPATH"] = WT
             env["PYTHONDONTWRITEBYTECODE"] = "1"
